@@ -12,5 +12,53 @@ Theorem parse_total : forall s,
   (exists t, parse_program s = Ok t) \/ parse_program s = Err \/ parse_program s = Unsupp.
 Proof. exact parse_program_total. Qed.
 
+(* Dollar-single-quoted strings: the escape units the lexer produces are
+   printed (EscapeUnit re-encoding: \OOO, \xHH, \uhhhh, \UHHHHHHHH, \cX, \c\\ ...)
+   in a form that is lexed back to the same units, whatever follows the
+   closing quote. *)
+Theorem escape_print_relex : forall f s es r,
+  lex_escaped f s = Ok (es, r) ->
+  forall z, lex_escaped (S (length es)) (cat_map print_eu es ++ c_sq :: z) = Ok (es, z).
+Proof. exact escaped_roundtrip. Qed.
+
+(* The tilde post-processing (Word::parse_tilde_front / parse_tilde_everywhere)
+   does not change the printed text of a word. *)
+Theorem tilde_front_print : forall w, print_word (tilde_front w) = print_word w.
+Proof. exact print_tilde_front. Qed.
+
+Theorem tilde_everywhere_print : forall fuel w,
+  print_word (tilde_everywhere fuel w) = print_word w.
+Proof. exact print_tilde_everywhere. Qed.
+
+(* lex_word_print: lexing the printed form of any word in the lexer's image
+   (for every context, delimiter set and source text, line continuations
+   included), followed by any text [z] that does not extend the word, returns
+   that word and the rest [z].  [z] does not extend the word when it does not
+   start with a line continuation, is empty or starts with a delimiter, and is
+   compatible with the last unit: a trailing literal `$` is not followed by
+   `(`, and nothing follows a trailing unquoted backslash ([last_fo_word]).
+   Covered: literals, backslash escapes, single/double/dollar-single quotes,
+   $name, ${name} with every modifier and nested words, `...`, $((...)), and
+   $(...) for any parser [inner] of the content that reads its own content
+   back; not covered ([ok_word]): a $(...) whose content starts with `(`
+   (known finding F14). *)
+Theorem lex_word_print : forall inner : str -> res (str * str),
+  (forall s content r0 r0', inner s = Ok (content, r0) -> skip_lc r0 = c_rparen :: r0' ->
+     forall z, inner (content ++ c_rparen :: z) = Ok (content, c_rparen :: z)) ->
+  forall f cx d s w r,
+  lex_units inner f cx d s = Ok (w, r) -> ok_word w = true -> d <> DDQuote ->
+  forall z, nolc z -> stops d z -> last_fo_word cx d w (hd z) ->
+  lex_units inner (S (S f)) cx d (print_word (tilde_front w) ++ z) = Ok (w, z).
+Proof. exact lex_word_print. Qed.
+
+(* in particular the rest the lexer stopped at is such a text *)
+Theorem lex_word_print_same : forall inner : str -> res (str * str),
+  (forall s content r0 r0', inner s = Ok (content, r0) -> skip_lc r0 = c_rparen :: r0' ->
+     forall z, inner (content ++ c_rparen :: z) = Ok (content, c_rparen :: z)) ->
+  forall f cx d s w r,
+  lex_units inner f cx d s = Ok (w, r) -> ok_word w = true -> d <> DDQuote ->
+  lex_units inner (S (S f)) cx d (print_word w ++ r) = Ok (w, r).
+Proof. exact lex_units_print_same. Qed.
+
 Theorem oracle_err : forall s, oracle PErr s = None.
 Proof. exact oracle_accepts_errors. Qed.
